@@ -22,6 +22,7 @@ RULE = 'GATE'
 TREE_PROPS = ['C20', 'C01', 'C06']
 EXPORT_PROPS = ['C07']
 LIST_PROPS = ['C20', 'C13', 'C07']
+CACHE_PROPS = LIST_PROPS + ['C18']
 
 
 def ret_cases(b):
@@ -516,16 +517,16 @@ def check_min_exp(ctx, purges, list_adts):
                 n += 1
                 line = st.span[1] if st.span else fn.line
                 if v.kind == 'call' and v.callee_name() == 'min' and any(L.cache_read(prog, fn, a) is not None for a in v.args):
-                    ctx.add(RULE, fn, 'min_exp-write(min)', 'ok', 'cache only lowered (min with its old value)', LIST_PROPS, line)
+                    ctx.add(RULE, fn, 'min_exp-write(min)', 'ok', 'cache only lowered (min with its old value)', CACHE_PROPS, line)
                 elif fn.path in purges:
                     # (2) after retain: assigned the minimum collected over the kept entries
                     ok, why = check_purge_min(prog, fn, st)
                     ctx.add(RULE, fn, 'min_exp-write(after-purge)', 'ok' if ok else 'violation',
-                            'cache set to the minimum over the kept entries after the complete retain' if ok else 'after the purge the cache is not the minimum over the kept entries: ' + why, LIST_PROPS, line)
+                            'cache set to the minimum over the kept entries after the complete retain' if ok else 'after the purge the cache is not the minimum over the kept entries: ' + why, CACHE_PROPS, line)
                 elif v.kind == 'call' and v.callee_name() == 'max_expiration' and fn.trait_method() == 'clear':
                     ctx.add(RULE, fn, 'min_exp-write(reset)', 'ok', 'cache reset to the maximum together with clearing the buffer', LIST_PROPS, line)
                 else:
-                    ctx.add(RULE, fn, 'min_exp-write(other)', 'violation', 'cached minimum expiration is assigned %s: it may rise above a stored expiration' % show(v, 3), LIST_PROPS, line)
+                    ctx.add(RULE, fn, 'min_exp-write(other)', 'violation', 'cached minimum expiration is assigned %s: it may rise above a stored expiration' % show(v, 3), CACHE_PROPS, line)
     ctx.stat(RULE + '-minexp', obligations=n)
     if n < 3:
         ctx.anchor_missing(RULE, 'min_exp invariant obligations', LIST_PROPS, n, 3)
